@@ -83,16 +83,22 @@ def gen_history(rng):
                 order.append(x)
     nmods = len(lib["modules"])
     mods = [[d for d in order if d["module"] == mi] for mi in range(nmods)]
+    # every module registers the custom type again; some with ANOTHER converter under the same
+    # name (documented register_type use): definitions made afterwards are converted by that one
+    lib["conv_variants"] = [rng.choice([0, 0, 1, 2]) for _ in range(nmods)]
+    for mi, defs_ in enumerate(mods):
+        for d in defs_:
+            d["conv_variant"] = lib["conv_variants"][mi]
     return lib, mods
 
 
-def render_module(mod_defs, mi, reload_marker):
+def render_module(mod_defs, mi, reload_marker, conv_variant=0):
     lines = ["# generated registry-machine module %d" % mi,
              "from behave import register_type",
              "def _conv_color(text):",
              "    if text == 'BAD':",
              "        raise ValueError('cannot convert BAD')",
-             "    return text.lower()",
+             "    return text.lower()%s" % (" + '#%d'" % conv_variant if conv_variant else ""),
              "_conv_color.pattern = r'[A-Z]+'",
              "register_type(Color=_conv_color)", ""]
     cur = "parse"       # the default matcher is in force at the start of every module
@@ -141,7 +147,7 @@ def evaluate(seed, hashseed, root, stats):
     for mi, mod_defs in enumerate(mods):
         p = os.path.join(root, "regmods", "mod_%d.py" % mi)
         with open(p, "w", encoding="utf-8") as f:
-            f.write(render_module(mod_defs, mi, 0))
+            f.write(render_module(mod_defs, mi, 0, lib["conv_variants"][mi]))
         paths.append(p)
     nops = 0
 
@@ -291,8 +297,12 @@ def evaluate(seed, hashseed, root, stats):
                 raw = mm.group(gi)
                 if tok[0] == "fld" and tok[2] == "Color" and raw == "BAD" and chosen["matcher"] != "re":
                     conv_fail = True
+                val = None if (conv_fail or raw is None) else W.convert_value(tok[2], raw, chosen["matcher"])
+                if val is not None and tok[2] == "Color" and chosen["matcher"] != "re" and chosen.get("conv_variant"):
+                    val += "#%d" % chosen["conv_variant"]       # the converter declared when the definition was made
+                    stats.fired["lookup:re-registered-converter"] = stats.fired.get("lookup:re-registered-converter", 0) + 1
                 exp.append({"name": tok[1] or None, "start": mm.start(gi), "end": mm.end(gi), "original": raw,
-                            "value": None if (conv_fail or raw is None) else W.convert_value(tok[2], raw, chosen["matcher"])})
+                            "value": val})
             is_err = type(match).__name__ == "MatchWithError"
             if conv_fail != is_err:
                 viol("converter-fault-status", "match-with-error:%s" % is_err, text=text)
